@@ -85,6 +85,66 @@ func scenarioLeave(enc *json.Encoder, idx int, reset bool) map[string]any {
 	return s.finish(enc, false)
 }
 
+// capture-race: the handler of a request is held at a point of the fingerprint computation while the same client sends frames the
+// connection records (PRIORITY, WINDOW_UPDATE, SETTINGS, a second request); then it is let go.  Whatever the two sides do about
+// their shared data, both requests are answered and, once the client has left, the connection is released like any other.
+func scenarioCaptureRace(enc *json.Encoder, idx int, point string) map[string]any {
+	s := startScenario(fmt.Sprintf("leave-capture-race-%s-%d", strings.TrimPrefix(point, "metadata.marshal."), idx), "leave", stack.Options{HandshakeTimeout: 2 * time.Second, IdleTimeout: 30 * time.Second})
+	hit, release := s.r.arm(point)
+	defer release()
+	raw, id, err := s.dial("h2")
+	if err != nil {
+		s.note("dial: %v", err)
+		return s.finish(enc, false)
+	}
+	tc, err := tlsClient(raw, []string{"h2"})
+	if err != nil {
+		raw.Close()
+		s.note("handshake: %v", err)
+		return s.finish(enc, false)
+	}
+	tc.SetDeadline(time.Now().Add(15 * time.Second))
+	tc.Write([]byte(h2raw.Preface))
+	tc.Write(h2raw.Settings())
+	hc := h2raw.NewConn(tc)
+	req := func(sid uint32, pr *h2raw.Prio) {
+		blk := h2raw.Block([]h2raw.HF{{":method", "GET"}, {":scheme", "https"}, {":authority", "vf.test"}, {":path", "/" + id}, {"x-vf-tag", id}})
+		tc.Write(h2raw.Headers(sid, true, blk, pr, 0))
+	}
+	req(1, nil)
+	select {
+	case <-hit:
+	case <-time.After(3 * time.Second):
+		s.note("the handler of the first request never reached %s", point)
+	}
+	// from here on later computations pass the point freely
+	s.r.mu.Lock()
+	delete(s.r.gates, point)
+	s.r.mu.Unlock()
+	tc.Write(h2raw.Priority(5, h2raw.Prio{Dep: 0, Weight: 33}))
+	tc.Write(h2raw.WindowUpdate(0, 4096))
+	tc.Write(h2raw.Settings(h2raw.Setting{ID: 3, Val: 77}))
+	req(3, &h2raw.Prio{Dep: 1, Weight: 9})
+	time.Sleep(40 * time.Millisecond) // the serve goroutine has met the held reader by now, one way or the other
+	release()
+	done := make(chan error, 1)
+	go func() { done <- hc.WaitStreams(1, 3) }()
+	select {
+	case err := <-done:
+		if err != nil {
+			s.note("control: requests not answered after frames arrived during the fingerprint computation (held at %s): %v", point, err)
+		}
+	case <-time.After(4 * time.Second):
+		s.note("control: requests not answered within 4s after frames arrived during the fingerprint computation (held at %s)", point)
+	}
+	tc.Close()
+	raw.Close()
+	if !s.waitExited(4 * time.Second) {
+		s.note("connection %s never logged exit: still held 4s after the client left (frames had arrived during a fingerprint computation held at %s)", id, point)
+	}
+	return s.finish(enc, false)
+}
+
 // ---------------------------------------------------------------- family F: server-side I/O errors at every operation index (C10, C11, C16)
 
 // The k-th Read (or Write) the server performs on the accepted connection fails like a reset connection, for k = from..to, on every
@@ -250,7 +310,7 @@ func scenarioSched(enc *json.Encoder, idx int, sc schedule) map[string]any {
 // ---------------------------------------------------------------- family T: timeouts (C11)
 
 func scenarioTimeouts(enc *json.Encoder, idx int) map[string]any {
-	s := startScenario(fmt.Sprintf("timeouts-%d", idx), "timeouts", stack.Options{HandshakeTimeout: 200 * time.Millisecond, IdleTimeout: 300 * time.Millisecond})
+	s := startScenario(fmt.Sprintf("timeouts-%d", idx), "timeouts", stack.Options{HandshakeTimeout: 200 * time.Millisecond, IdleTimeout: 300 * time.Millisecond, ReadTimeout: 300 * time.Millisecond})
 	hold := make(chan struct{})
 	var wg sync.WaitGroup
 	start := time.Now()
@@ -266,7 +326,9 @@ func scenarioTimeouts(enc *json.Encoder, idx int) map[string]any {
 		{"h2", clientOpts{requests: 1, h2cancel: true}},
 		// first bytes that are no TLS at all - a plain HTTP request (answered with 400 by the handshake code), random bytes - from
 		// clients that stay connected afterwards: whatever the proxy answers, it is the proxy that has to let go
-		{"plainhttp", clientOpts{}}, {"garbage", clientOpts{}}}
+		{"plainhttp", clientOpts{}}, {"garbage", clientOpts{}},
+		// a request body that stops half-way (no content-length): the read timeout ends the stream, after which the connection is idle
+		{"h2", clientOpts{requests: 1, halfPost: true}}}
 	httpHolders := 0
 	for _, h := range holders {
 		if h.kind == "h1" || h.kind == "h2" || h.kind == "noalpn" {
@@ -814,6 +876,9 @@ func runAll(tracePath, reportPath string) {
 		report = append(report, scenarioMix(enc, i, rng, nconn))
 	}
 	report = append(report, scenarioLeave(enc, 0, false), scenarioLeave(enc, 1, true))
+	for i, pt := range []string{"metadata.marshal.begin", "metadata.marshal.after_settings", "metadata.marshal.after_window_update", "metadata.marshal.after_priorities"} {
+		report = append(report, scenarioCaptureRace(enc, i, pt))
+	}
 	nf := 10
 	if tier == "thorough" {
 		nf = 40
